@@ -24,6 +24,12 @@ TABLE = [
      "as C02 for telemetry with timestamp lengths 0..32, packet version, destination id, time reference; service-17 wrapper; "
      "declared lengths below 6+7+ts+2 with patched CRC must be refused",
      ORACLE_NOTE, "DESIGN.md section 4 C03"),
+    ("C04", "fault_enumeration",
+     "fault injection by enumeration: every single-bit flip and bursts of every length 2..16 at every admissible offset of generated CRC-protected packets; oracle = decoder must raise, reference CRC",
+     "PUS TC, PUS TM and the 8 CFDP PDU kinds with the CRC flag (also after setter mutations): trailer == reference CRC-16 of everything before it, uncorrupted packet accepted, every "
+     "admissible fault (all single bits, all start offsets x burst lengths <= 16 with drawn / exhaustive inner patterns) refused by the class decoder, the factory and check_pus_crc",
+     ORACLE_NOTE + "; CRC-16/CCITT detects every burst <= 16 bits, so no probabilistic alarm; the unprotectable CFDP CRC-flag bit and the length-determining octets are excluded as the statement says",
+     "DESIGN.md section 4 C04"),
     ("C05", "exploration",
      PBT + " + exhaustive flag x width grid and all (octet0, octet3) pairs against a reference header codec",
      "all 2048 header configurations packed/unpacked with boundary-weighted values, every strict prefix refused, all 2^16 flag/width octet "
@@ -44,6 +50,11 @@ TABLE = [
      "generic TLV/LV over all types and value lengths 0..255 with continuation octets; six concrete TLVs over action x status x names (multi-octet characters) through "
      "unpack / from_tlv / holder; all 144 (action,status) pairs through the mapping helpers; every (class, foreign type, route) combination must raise the mismatch error",
      ORACLE_NOTE, "DESIGN.md section 4 C08"),
+    ("C11", "exploration",
+     "model-based testing: one Hypothesis rule-based state machine per mutable packet class against reference encoders and a fresh-object model; plain @given for the caller-input clause",
+     "setter / pack / decode-and-continue histories of up to 30 steps on PusTc, PusTm, EOF, Finished, Metadata, NAK, File Data, Keep Alive and USLP frames over all header configurations: after "
+     "every step reported length == len(pack()), length field as the format requires, octets == freshly built object, pack repeatable; constructing and packing leaves caller-owned config/params untouched",
+     ORACLE_NOTE, "DESIGN.md section 4 C11"),
     ("C12", "exploration",
      PBT + ": factory dispatch and holder casts over all kinds x width combinations, oracle = class identity + reference parser",
      "8 PDU kinds x 16 (id width, seq width) pairs x CRC x large file through PduFactory.from_raw / inspectors / holder; all 64 (held kind, accessor) pairs per case",
